@@ -1323,6 +1323,11 @@ func c06Random(rng *rand.Rand) (c06Case, string) {
 		// member names that contain each other (a later name inside an earlier one) and the empty name: what a
 		// member is called must not matter
 		names := []string{"items", "item", "parent_id", "parent", "", "ident", "id", "value", "val", "a", "ab"}
+		if rng.IntN(2) == 0 {
+			// ordinary (quoted) names that look like something else: a type name, a union, a comment, a reference
+			names = []string{"@next", "@t1", "@", "@t1 | @t2", "$ref", "//", "#", "a b", "@id", "é", "@t0"}
+			label += " + names that look like type names"
+		}
 		rename := func(n *gen.Node) {
 			n.Walk(func(o *gen.Node) {
 				if o.Kind != gen.KObject || len(o.Children) > len(names) {
